@@ -5,6 +5,7 @@
 package main
 
 import (
+	"time"
 	"bytes"
 	"flag"
 	"fmt"
@@ -338,14 +339,26 @@ func run(sc vh.Scenario, dir string, tr *vh.Rec) {
 		// projection 2: the tree a fresh process would see now
 		ncopy++
 		cp := filepath.Join(dir, fmt.Sprintf("copy%d", ncopy))
-		if err := vh.CopyDir(dbdir, cp); err != nil {
-			tr.Dead, tr.Note = true, "copy: "+err.Error()
-			return
+		// Copying a directory that a live goleveldb instance owns is not atomic (its background goroutine may rotate
+		// the manifest or drop an obsolete table in between): retry until the copy opens; a copy that never opens is a
+		// failure of this harness, not an observation
+		var s2 db.DB
+		var err error
+		for attempt := 0; attempt < 10; attempt++ {
+			os.RemoveAll(cp)
+			if err = vh.CopyDir(dbdir, cp); err != nil {
+				time.Sleep(5 * time.Millisecond)
+				continue
+			}
+			os.Remove(filepath.Join(cp, "LOCK"))
+			if s2, err = db.OpenDB("leveldb", cp); err == nil {
+				break
+			}
+			time.Sleep(10 * time.Millisecond)
 		}
-		os.Remove(filepath.Join(cp, "LOCK"))
-		s2, err := db.OpenDB("leveldb", cp)
 		if err != nil {
-			ev["disk"] = dump{B: [][][]string{}, Kv: [][3]interface{}{}, E: "open copy: " + err.Error()}
+			tr.Dead, tr.Note = true, "copy of the live store never opened: "+err.Error()
+			return
 		} else {
 			rtx, _ := s2.BeginReadTx()
 			ev["disk"] = dumpTree(rtx, c)
